@@ -191,6 +191,54 @@ def targets(ctx):
             return {"msg": "Mixed", "tree": {"scalars": {"f_leaf": {"s": "y" * n}, "f_int32": -1}}, "route": "kwargs"}
         return {"msg": "Maps", "tree": {"m_string_leaf": [["k" * n, {"s": "v" * n}]], "m_bool_string": [[True, ""]]}, "route": "kwargs"}
 
+    # long packed lists: element counts around the powers of two (a count threshold in the writer or in the size computation)
+    LONG_TYPES = {"r_uint32": lambda i: (i * 37) % 300, "r_sint64": lambda i: -(i % 200), "r_fixed32": lambda i: i, "r_double": lambda i: float(i % 7), "r_bool": lambda i: i % 3 == 0,
+                  "r_color": lambda i: (0, 1, 2, -1, 1000)[i % 5], "r_int32": lambda i: -1 if i % 50 == 0 else i % 128, "r_sfixed64": lambda i: -i}
+
+    def long_cases():
+        top = 18 if ctx.thorough else 16
+        for k in range(7, top + 1):
+            for d in (-1, 0, 1):
+                n = 2**k + d
+                for j, name in enumerate(LONG_TYPES):
+                    if ctx.thorough or (k + j + d) % 3 == 0 or k == 16:
+                        yield {"long": name, "n": n}
+
+    def long_ev(case):
+        import betterproto
+        from io import BytesIO
+
+        name, n = case["long"], case["n"]
+        f = LONG_TYPES[name]
+        vals = [f(i) for i in range(n)]
+        cls = c.bp("Repeats")
+        fails = []
+        try:
+            for route in ("ctor", "parse"):
+                m = guard("construct", lambda: cls(**{name: list(vals)}))
+                if route == "parse":
+                    m = guard("parse", cls().parse, guard("bytes0", bytes, m))
+                b = guard("bytes", bytes, m)
+                ln = guard("len", len, m)
+                if ln != len(b):
+                    fails.append(Failure("len_vs_bytes", f"long_packed|len_vs_bytes|{name}", f"{name} x {n} ({route}): len(m)={ln} len(bytes(m))={len(b)}"))
+                s1 = BytesIO()
+                guard("dump", m.dump, s1)
+                if s1.getvalue() != b:
+                    fails.append(Failure("dump_vs_bytes", f"long_packed|dump_vs_bytes|{name}", f"{name} x {n} ({route}): dump wrote {len(s1.getvalue())} bytes, bytes(m) has {len(b)}"))
+                s2 = BytesIO()
+                guard("dump_delimited", m.dump, s2, betterproto.SIZE_DELIMITED)
+                if s2.getvalue() != wire.enc_varint(len(b)) + b:
+                    fails.append(Failure("delimited_frame", f"long_packed|delimited_frame|{name}", f"{name} x {n} ({route}): frame of {len(s2.getvalue())} bytes for a message of {len(b)}"))
+                if guard("serialize_to_string", m.SerializeToString) != b:
+                    fails.append(Failure("serialize_to_string_vs_bytes", f"long_packed|serialize_to_string|{name}", f"{name} x {n}"))
+                r = c.rf("Repeats").FromString(b)
+                if len(getattr(r, name)) != n or list(getattr(r, name))[-3:] != [x for x in vals[-3:]]:
+                    fails.append(Failure("reference_reads_other_list", f"long_packed|reference|{name}", f"{name} x {n} ({route}): the reference reads {len(getattr(r, name))} elements"))
+        except Guarded as g:
+            fails.append(Failure(f"raises_{g.where}", f"long_packed|raises_{g.where}_{type(g.exc).__name__}|{name}", f"{name} x {n}: {g}"))
+        return Eval(fails, weight=2, nontrivial_count=2, labels=[f"long_packed:{name}", f"long_packed_n>=65536:{n >= 65536}"])
+
     from . import _seq
 
     from . import _wkt
@@ -200,6 +248,8 @@ def targets(ctx):
         __import__("vf.props._inherit", fromlist=["target"]).target(c),
         Target("corpus_values", ev, poison=_poison_fn, strategy=strat(), quick=700, thorough=8000, time_quick=70),
         Target("length_prefix_boundaries", ev, poison=_poison_fn, strategy=big(), quick=150, thorough=400),
+        Target("long_packed_lists", long_ev, cases=long_cases, exhaustive=True,
+               rule="packed lists of 2^k-1 / 2^k / 2^k+1 elements (k = 7..16, thorough ..18) x 8 element types x {constructed, decoded}: len, dump, SIZE_DELIMITED frame, SerializeToString, reference element count"),
         _seq.target("C09"),
         _wkt.target("C09"),
     ]
